@@ -87,6 +87,7 @@ fn canon(rng: &mut (impl RngCore + rand_core::CryptoRng)) -> [u8; 32] {
 
 pub fn c15(opts: &Opts, out: &mut Out) {
     let mut rng = chacha(opts.seed, 15);
+    serde_visitor_protocol(out, "C15", &sample_proofs(opts));
     let mut counts = std::collections::BTreeMap::new();
     // (a) structured: tag x rounds x length offsets, well-formed content
     let build = |d: u8, k: usize, rng: &mut rand_chacha::ChaCha12Rng| {
@@ -295,4 +296,97 @@ pub fn c15(opts: &Opts, out: &mut Out) {
     out.stat("distinct_classes", counts.len() * 10);
     out.case("structured-exact: tag in {0..8,255} x rounds 0..4 with canonical scalars and random point bytes; +/- 1,31,32,33,63 bytes".to_string());
     out.case("scalar-boundary: each of d1[i], r1, s1 replaced by l-1, l, l+1, 2^256-1, 2^255, 0".to_string());
+}
+
+/// **The `Deserialize` implementation under any data format.** A format is free to answer `deserialize_bytes` with
+/// whichever visitor method it likes (a sequence of `u8` for formats without byte strings, an owned buffer, a string,
+/// a number, nothing) and to announce any size. For every such answer: no panic (the sequence visitor is told to
+/// expect 2^64−1 or 2^63 elements and then delivers few or none), and an `Ok`
+/// only for bytes that `from_bytes` accepts, decoding to the same proof. Runs under the checks of C15 and C16.
+pub fn serde_visitor_protocol(out: &mut Out, prop: &str, good: &[Vec<u8>]) {
+    use serde::de::{self, Deserializer, SeqAccess, Visitor};
+    struct Seq<'a> {
+        bytes: &'a [u8],
+        pos: usize,
+        hint: Option<usize>,
+    }
+    impl<'de, 'a> SeqAccess<'de> for Seq<'a> {
+        type Error = de::value::Error;
+        fn next_element_seed<T: de::DeserializeSeed<'de>>(&mut self, seed: T) -> Result<Option<T::Value>, Self::Error> {
+            if self.pos >= self.bytes.len() {
+                return Ok(None);
+            }
+            let b = self.bytes[self.pos];
+            self.pos += 1;
+            seed.deserialize(de::value::U8Deserializer::<Self::Error>::new(b)).map(Some)
+        }
+        fn size_hint(&self) -> Option<usize> {
+            self.hint
+        }
+    }
+    struct Hostile<'a> {
+        mode: usize,
+        bytes: &'a [u8],
+        hint: Option<usize>,
+    }
+    impl<'de, 'a> Deserializer<'de> for Hostile<'a> {
+        type Error = de::value::Error;
+        fn deserialize_any<V: Visitor<'de>>(self, v: V) -> Result<V::Value, Self::Error> {
+            match self.mode {
+                0 => v.visit_seq(Seq { bytes: self.bytes, pos: 0, hint: self.hint }),
+                1 => v.visit_byte_buf(self.bytes.to_vec()),
+                2 => v.visit_bytes(self.bytes),
+                3 => v.visit_string(String::from_utf8_lossy(self.bytes).into_owned()),
+                4 => v.visit_u64(self.bytes.len() as u64),
+                5 => v.visit_unit(),
+                6 => v.visit_none(),
+                7 => v.visit_bool(true),
+                8 => v.visit_i64(-1),
+                9 => v.visit_char('x'),
+                _ => v.visit_f64(1.5),
+            }
+        }
+        serde::forward_to_deserialize_any! {
+            bool i8 i16 i32 i64 i128 u8 u16 u32 u64 u128 f32 f64 char str string bytes byte_buf option unit unit_struct
+            newtype_struct seq tuple tuple_struct map struct enum identifier ignored_any
+        }
+    }
+    let mut inputs: Vec<Vec<u8>> = good.to_vec();
+    inputs.push(vec![]);
+    inputs.push(vec![1]);
+    inputs.push(vec![7; 40]);
+    inputs.push(vec![0xff; 225]);
+    let mut n_ok = 0usize;
+    for bytes in &inputs {
+        let direct = rrun::Proof::from_bytes(bytes);
+        for mode in 0..11usize {
+            let hints: Vec<Option<usize>> = if mode == 0 { vec![None, Some(bytes.len()), Some(0), Some(usize::MAX), Some((isize::MAX as usize) + 1), Some(bytes.len() + 1)] } else { vec![None] };
+            for hint in hints {
+                let key = format!("visitor method {} announced size {:?} input of {} bytes", mode, hint, bytes.len());
+                let r = std::panic::catch_unwind(|| <rrun::Proof as serde::Deserialize>::deserialize(Hostile { mode, bytes, hint }));
+                match r {
+                    Err(_) => out.oracle(&format!("{}:serde-any-format-no-panic", prop), false, &key, "deserialisation panicked (or tried to allocate what the input announced)"),
+                    Ok(Err(_)) => out.oracle(&format!("{}:serde-any-format-no-panic", prop), true, &key, ""),
+                    Ok(Ok(p)) => {
+                        n_ok += 1;
+                        out.oracle(&format!("{}:serde-any-format-no-panic", prop), true, &key, "");
+                        out.oracle(&format!("{}:serde-accepts-same", prop), direct.as_ref().map(|d| d == &p).unwrap_or(false) && p.to_bytes() == *bytes, &key, "a data format made the deserialiser accept bytes that from_bytes refuses, or decode them differently");
+                    },
+                }
+            }
+        }
+    }
+    out.stat("serde_visitor_accepts", n_ok);
+}
+
+/// a few honest proofs (bytes) for the scenarios that need accepted inputs
+pub fn sample_proofs(opts: &Opts) -> Vec<Vec<u8>> {
+    let mut rng = chacha(opts.seed, 1500);
+    [(8usize, 1usize, 1usize), (2, 2, 3), (64, 1, 6), (1, 1, 2)]
+        .iter()
+        .filter_map(|&(n, m, t)| {
+            let inst = rrun::random_inst(n, m, m, t, 4, false, &mut rng);
+            inst.prove(&mut rng).ok().map(|p| p.to_bytes())
+        })
+        .collect()
 }
